@@ -15,6 +15,7 @@ import (
 	"strings"
 	"testing"
 
+	"github.com/CorentinB/warc/pkg/spooledtempfile"
 	"github.com/internetarchive/Zeno/internal/pkg/archiver"
 	"github.com/internetarchive/Zeno/internal/pkg/verifcfg"
 	"github.com/internetarchive/Zeno/internal/pkg/verifgen"
@@ -28,6 +29,7 @@ const (
 	c19KeyXMLFirst  = "C19-xml-chardata-starting-with-url-taken-whole"
 	c19KeyS3Mixed   = "C19-s3v2-contents-dropped-with-commonprefixes"
 	c19KeyExtRoot   = "C19-hasfileextension-url-without-path"
+	c19KeyM3UBody   = "C19-m3u8-body-discarded-by-processbody"
 )
 
 // c19Case is one document pushed through the dispatch.
@@ -81,8 +83,10 @@ func genC19Case(t *rapid.T) c19Case {
 	return c
 }
 
-// c19MkItem builds an archived item whose body went through archiver.ProcessBody.
-func c19MkItem(t veriflib.TB, body []byte, contentType, server, pageURL string, hops int, asChild bool) *models.Item {
+// c19MkItem builds an archived item whose body went through archiver.ProcessBody. kept reports whether ProcessBody
+// kept the body for post-processing; when it did not and forceBody is set, the body is attached the way ProcessBody
+// would have (so that the rest of the dispatch can still be checked).
+func c19MkItem(t veriflib.TB, body []byte, contentType, server, pageURL string, hops int, asChild bool, forceBody bool) (item *models.Item, kept bool) {
 	page := &models.URL{Raw: pageURL, Hops: hops}
 	if err := page.Parse(); err != nil {
 		t.Fatalf("C19 harness: page URL %q: %v", pageURL, err)
@@ -97,10 +101,14 @@ func c19MkItem(t veriflib.TB, body []byte, contentType, server, pageURL string, 
 	if err := archiver.ProcessBody(page, false, false, 1, os.TempDir()); err != nil {
 		t.Fatalf("C19 harness: ProcessBody: %v", err)
 	}
-	if page.GetBody() == nil {
-		t.Fatalf("C19 harness: ProcessBody kept no body for MIME type %s", page.GetMIMEType())
+	kept = page.GetBody() != nil
+	if !kept && forceBody {
+		sp := spooledtempfile.NewSpooledTempFile("zeno", os.TempDir(), 2097152, false, -1)
+		sp.Write(body)
+		page.SetBody(sp)
+		page.RewindBody()
 	}
-	item := models.NewItem("c19-doc", page, "")
+	item = models.NewItem("c19-doc", page, "")
 	if asChild {
 		seedURL := &models.URL{Raw: "https://www.example.org/page"}
 		seedURL.Parse()
@@ -111,7 +119,7 @@ func c19MkItem(t veriflib.TB, body []byte, contentType, server, pageURL string, 
 		}
 	}
 	item.SetStatus(models.ItemArchived)
-	return item
+	return item, kept
 }
 
 func c19Clip(s string) string {
@@ -143,7 +151,15 @@ func propC19Classification(t veriflib.TB, c c19Case) {
 	cfg.DomainsCrawl = nil
 
 	body, planted, pageURL := c.c19Doc()
-	item := c19MkItem(t, body, c.CT, "", pageURL, c.Hops, c.AsChild)
+	tolerateBody := c.Kind == "m3u8" && veriflib.FindingOpen(c19KeyM3UBody)
+	item, kept := c19MkItem(t, body, c.CT, "", pageURL, c.Hops, c.AsChild, tolerateBody)
+	if !kept {
+		if !tolerateBody {
+			veriflib.Fail(t, "C19", facet, c, string(body), "archiver.ProcessBody discarded the body of a %s document (Content-Type %s, detected MIME type %s): post-processing sees no body and extracts nothing; document: %s",
+				c.Kind, c.CT, item.GetURL().GetMIMEType(), c19Clip(string(body)))
+		}
+		veriflib.Excluded(facet, "open finding "+c19KeyM3UBody+": body attached by the harness")
+	}
 	outItems := postprocessItem(item)
 
 	assets := map[string]int{}   // Raw -> hops
@@ -166,12 +182,12 @@ func propC19Classification(t veriflib.TB, c c19Case) {
 	for _, p := range planted {
 		_, isAsset := assets[p.Text]
 		_, isOutlink := outlinks[p.Text]
-		// classes of the open discovery findings are left out (they are checked strictly at extractor level)
-		if c.Kind == "json" && veriflib.FindingOpen(c19KeyJSONQuery) && (strings.Contains(p.Shape, "+q-slash") || strings.Contains(p.Shape, "+emptyseg")) {
+		// undiscovered URLs of the open discovery findings' classes are left out (checked strictly at extractor level)
+		if c.Kind == "json" && !isAsset && !isOutlink && veriflib.FindingOpen(c19KeyJSONQuery) && (strings.Contains(p.Shape, "+q-slash") || strings.Contains(p.Shape, "+emptyseg")) {
 			veriflib.Excluded(facet, "open finding "+c19KeyJSONQuery)
 			continue
 		}
-		if c.Kind == "xml" && veriflib.FindingOpen(c19KeyXMLFirst) && verifgen.XMLWhereFirstURL[p.Where] {
+		if c.Kind == "xml" && !isAsset && !isOutlink && veriflib.FindingOpen(c19KeyXMLFirst) && verifgen.XMLWhereFirstURL[p.Where] {
 			veriflib.Excluded(facet, "open finding "+c19KeyXMLFirst)
 			continue
 		}
@@ -197,7 +213,7 @@ func propC19Classification(t veriflib.TB, c c19Case) {
 			}
 		default:
 			if isAsset {
-				if veriflib.FindingOpen(c19KeyExtRoot) && p.Shape == "root" {
+				if veriflib.FindingOpen(c19KeyExtRoot) && p.NoPath() {
 					veriflib.Excluded(facet, "open finding "+c19KeyExtRoot)
 					continue
 				}
@@ -255,6 +271,15 @@ func TestVerifKF_C19_ext_root(t *testing.T) {
 		JSON: &verifgen.JSONDoc{Root: verifgen.JNode{K: "obj", Keys: []string{"home"}, Kids: []verifgen.JNode{{K: "url", S: p.Text}}}, Planted: []verifgen.DocURL{p}, Depth: 1}})
 }
 
+// strict reproduction: a two-line media playlist is detected as application/vnd.apple.mpegurl (a child of
+// application/octet-stream in the mimetype tree) and archiver.ProcessBody throws its body away
+func TestVerifKF_C19_m3u8_body(t *testing.T) {
+	defer veriflib.Flush()
+	p := verifgen.DocURL{Text: "seg-k0q.ts", Shape: "rel", Where: "segment", Ext: true}
+	propC19Classification(t, c19Case{Kind: "m3u8", CT: "application/vnd.apple.mpegurl", Hops: 0, MaxHops: 1,
+		M3U: &verifgen.M3U8Doc{Header: []string{"#EXT-X-TARGETDURATION:10"}, Entries: []verifgen.M3Entry{{K: "seg", URI: p.Text, Attrs: "9.0,"}}, EndList: true, Planted: []verifgen.DocURL{p}}})
+}
+
 // ---- S3 walk through postprocessItem ---------------------------------------------------------------
 
 func propC19S3Dispatch(t veriflib.TB, b verifgen.S3Bucket) {
@@ -283,7 +308,11 @@ func propC19S3Dispatch(t veriflib.TB, b verifgen.S3Bucket) {
 			continue
 		}
 		// every listing page is post-processed as a seed at hop 0 with max-hops 1: outlinks are what gets queued
-		item := c19MkItem(t, body, ct, b.Server, link, 0, false)
+		item, kept := c19MkItem(t, body, ct, b.Server, link, 0, false, false)
+		if !kept {
+			errs = append(errs, fmt.Sprintf("%s -> archiver.ProcessBody discarded the listing body (MIME %s)", link, item.GetURL().GetMIMEType()))
+			continue
+		}
 		var links []string
 		for _, o := range postprocessItem(item) {
 			links = append(links, o.GetURL().Raw)
